@@ -40,6 +40,8 @@ impl<K, V> IndexMap<K, V> {
             r is Some <==> old(self).has(k),
     { unimplemented!() }
     #[verifier::external_body]
+    pub fn contains_key(&self, k: &K) -> (r: bool) ensures r == self.has(*k) { unimplemented!() }
+    #[verifier::external_body]
     pub fn get(&self, k: &K) -> (r: Option<&V>)
         ensures r is Some <==> self.has(*k), r is Some ==> *r->Some_0 == self.entries()[im_idx(self.entries(), *k)].1,
     { unimplemented!() }
